@@ -477,6 +477,11 @@ class World:
         site = f"{ex.frames[-1]['fid']}#pre@{c.qual}"
         cx = Ctx(ex, bound)
         for nm, f in c.requires:
+            if nm.startswith("axiom:"):
+                # not a condition on the caller's state: a semantic axiom instantiated at the current heap (listed as an assumption)
+                ex.assume(f(cx))
+                ex.assumptions_used.add(f"{nm[6:]} instantiated at the call of {c.qual}")
+                continue
             ex.oblige(f"{site}:{nm}", "pre@site", f(cx), note=f"line {ex.cur_line}")
         if c.assumed:
             ex.assumptions_used.add(f"assumed contract of {c.fid}" + (f" ({c.note})" if c.note else ""))
